@@ -71,27 +71,30 @@ def check_value(run, repo, fr, ci, encs):
     return nob, ok
 
 
-def check_variant(run, repo, fr, ci, model, fixed, align):
+def check_variant(run, repo, fr, ci, model, fixed, align, rule='C09-V', top_roles=(), extra_words=(), abstract_shift=False):
     name = ci.name
     fn = name + '.execute'
-    h = OpHarness(repo, fr, name, align=align, fixed=fixed).run()
+    h = OpHarness(repo, fr, name, align=align, fixed=fixed, top_roles=top_roles, extra_words=extra_words, abstract_shift=abstract_shift).run()
     x = X(h)
     h.ref_mode = True
     try:
         o = model(x)
     except Unsupported as u:
-        run.violation('C09-V', ci.relpath, fn, 'operands of the multiplier', 'the instruction multiplies / divides operands other than those of the architecture (%s)' % u)
+        run.violation(rule, ci.relpath, fn, 'operands of the multiplier', 'the instruction multiplies / divides operands other than those of the architecture (%s)' % u)
         return 1, False
     B, it = h.B, h.it
     cond = h.cond()
     ok = True
     nob = 0
+    if getattr(o, 'shifter_problem', None):
+        run.violation(rule, ci.relpath, fn, 'shifter application', o.shifter_problem)
+        return 1, False
 
     def bad(construct, msg, witness):
         nonlocal ok
         ok = False
         w = h.describe(witness) if witness not in (0, None) else {}
-        run.violation('C09-V', ci.relpath, fn, construct, msg + ('; e.g. %s' % w if w else ''), {'witness': w})
+        run.violation(rule, ci.relpath, fn, construct, msg + ('; e.g. %s' % w if w else ''), {'witness': w})
     dom = B.AND(h.dom, B.NOT(o.unpred))
     # host errors
     for oc in h.hosterrors:
